@@ -60,6 +60,7 @@ ASSUMPTIONS = [
 
 SIG = "md5"
 ENUM_CAP = 10
+KNOWN_SHAPE = "collect-one-remote-two-caches"
 
 # injected upload failures and doubly-missing objects are logged (with tracebacks) by the code under test;
 # the verdict never depends on log output
@@ -296,18 +297,18 @@ def flow_cases(draw):  # noqa: C901, PLR0912, PLR0915
             p["remote"] = r
         elif mode in ("both", "remote"):
             p["remote"], p["cache"] = r, cache_of_remote[r]
+            if nc > 1 and draw(st.integers(0, 7)) == 0:
+                p["cache"] = draw(st.integers(0, nc - 1))  # may pair this remote with a second cache
         elif mode == "cache":
-            if inh["remote"] is None:
-                p["cache"] = draw(st.integers(0, nc - 1))
+            if inh["remote"] is None or (nc > 1 and draw(st.integers(0, 3)) == 0):
+                p["cache"] = draw(st.integers(0, nc - 1))  # under an inherited remote: a second cache for it
             else:
                 p["cache"] = cache_of_remote[inh["remote"]]  # redundant re-statement of the inherited cache
         prefixes.append(p)
-    # complete: every tracked entry must resolve to a cache and a remote that belong together
+    # complete: every tracked entry must resolve to a cache and a remote
     for k in tracked:
         res = resolve(prefixes, k)[1]
-        ok = (res["cache"] is not None and res["remote"] is not None
-              and cache_of_remote[res["remote"]] == res["cache"])
-        if ok:
+        if res["cache"] is not None and res["remote"] is not None:
             continue
         r = draw(st.integers(0, nr - 1)) if res["remote"] is None else res["remote"]
         own = [p for p in prefixes if p["key"] == k]
@@ -462,9 +463,9 @@ def run_flow(case, ctx):  # noqa: C901, PLR0912, PLR0915
             return Result(viols, False, ["save-violation"], {})
 
         # ---- the tracked index ---------------------------------------------------------------
-        def make_tidx(caches, remotes):
+        def make_tidx(caches, remotes, keys):
             idx = DataIndex()
-            for k in m.tracked:
+            for k in keys:
                 e = m.entries[k]
                 if e["isdir"]:
                     meta = Meta(isdir=True)
@@ -479,11 +480,36 @@ def run_flow(case, ctx):  # noqa: C901, PLR0912, PLR0915
         des_r = m.designated("remote")
         des_c = m.designated("cache")
         req_r = m.requested_remote()
-        cacheof = m.cacheof()
+        cacheof = m.cacheof()  # remotes paired with exactly one cache
+        pres = m.prefix_res()
+        caches_r = m.caches_of_remote()
+        shaped = m.shaped_remotes()  # remotes paired with >= 2 caches: the known collect() defect may show
+        shaped_c = set().union(*[caches_r[r] for r in shaped]) if shaped else set()
+        involved = m.involved_keys()
         exact = all(req_r.get(r, set()) == des_r.get(r, set()) for r in range(nr))
-        feeders = {}
-        for r, c in cacheof.items():
-            feeders.setdefault(c, []).append(r)
+        known_v = []  # the one known finding, kept apart from `viols` so that judging goes on behind it
+
+        def known_shape(msg):
+            if not known_v:
+                known_v.append(Viol(KNOWN_SHAPE, msg))
+
+        def sets_for(keys):
+            """Reference sets for the tracked keys `keys`: designated per remote / cache, and per storage prefix
+            (cache, remote, objects of the entries under it) - entries under a prefix move between the cache
+            and the remote that prefix resolves to."""
+            d_r, d_c, per_prefix = {}, {}, []
+            for k in keys:
+                d_r.setdefault(m.res[k]["remote"], set()).update(m.entries[k]["reach"])
+                d_c.setdefault(m.res[k]["cache"], set()).update(m.entries[k]["reach"])
+            for pk, c, r in pres:
+                objs = set()
+                for k in keys:
+                    if is_prefix(pk, k):
+                        objs |= m.entries[k]["reach"]
+                per_prefix.append((c, r, objs))
+            return d_r, d_c, per_prefix
+
+        _, _, pp_all = sets_for(m.tracked)
 
         coll_index = DataIndex() if case["cache_index"] else None
 
@@ -492,11 +518,13 @@ def run_flow(case, ctx):  # noqa: C901, PLR0912, PLR0915
                 return collect([idx], "remote", cache_index=coll_index, cache_key=(phase,), **kw)
             return collect([idx], "remote", **kw)
 
-        def judge_push(label, new, snap0, snap1, pushed, failed):
+        def judge_push(label, new, snap0, snap1, pushed, failed, skip_r, counts):
             total = sum(len(v) for v in new.values())
             arrived = sum(len(v & set(snap1[r])) for r, v in new.items())
             still = sum(len(v - set(snap1[r])) for r, v in new.items())
-            if pushed + failed != total:
+            if not counts:
+                pass
+            elif pushed + failed != total:
                 viols.append(Viol(f"push-count-sum:{label}",
                                   f"push {label}: pushed {pushed} + failed {failed} != {total} objects that had to move"))
             elif pushed != arrived or failed != still:
@@ -504,6 +532,8 @@ def run_flow(case, ctx):  # noqa: C901, PLR0912, PLR0915
                                   f"push {label}: reported pushed={pushed} failed={failed}, but {arrived} of the "
                                   f"{total} objects that had to move are present afterwards and {still} are absent"))
             for r in range(nr):
+                if r in skip_r:
+                    continue
                 extra = set(snap1[r]) - set(snap0[r]) - new.get(r, set())
                 if extra:
                     viols.append(Viol("push-unexpected-object",
@@ -532,11 +562,14 @@ def run_flow(case, ctx):  # noqa: C901, PLR0912, PLR0915
                     _put_raw(root, oid, m.bytes[oid])
                 if how == "full":
                     _put_raw(root, e["oid"], m.bytes[e["oid"]])
-            tidx = make_tidx(caches, rem)
+            tidx = make_tidx(caches, rem, m.tracked)
             before = _snap(roots, f"before push{tag}", viols)
 
             def new_for_push(snap):
-                return {r: (req_r.get(r, set()) & set(csnap[cacheof[r]])) - set(snap[r]) for r in cacheof}
+                out = {}
+                for c, r, objs in pp_all:
+                    out.setdefault(r, set()).update((objs & set(csnap[c])) - set(snap[r]))
+                return out
 
             new1 = new_for_push(before)
             moving = sorted(set().union(*new1.values())) if new1 else []
@@ -550,21 +583,36 @@ def run_flow(case, ctx):  # noqa: C901, PLR0912, PLR0915
             with inj:
                 pushed1, failed1 = push(data, jobs=case["jobs"])
             after1 = _snap(roots, f"after push round 1{tag}", viols)
-            judge_push("round1", new1, before, after1, pushed1, failed1)
             if case["recollect"]:
-                tidx = make_tidx(caches, rem)
+                tidx = make_tidx(caches, rem, m.tracked)
                 data = do_collect(tidx, phase, push=True)
             new2 = new_for_push(after1)
             pushed2, failed2 = push(data, jobs=case["jobs"])
             after2 = _snap(roots, f"after push round 2{tag}", viols)
-            judge_push("round2", new2, after1, after2, pushed2, failed2)
-            if failed2:
+            lack = {r: des_r.get(r, set()) - set(after2[r]) for r in range(nr)}
+            # the known defect: collect() groups the prefixes of one remote store and carries along the cache of
+            # the first of them only, so the objects held by the other cache(s) are never sent
+            manifest = {r for r in shaped
+                        if lack[r] and any(not (lack[r] & set(csnap[c])) for c in caches_r[r])}
+            if manifest:
+                r = min(manifest)
+                losers = sorted({m.res[k]["cache"] for k in m.tracked
+                                 if m.res[k]["remote"] == r and m.entries[k]["reach"] & lack[r]})
+                known_shape(f"remote {r} is paired with caches {sorted(caches_r[r])} by the prefixes that resolve "
+                            f"to it; collection carries one cache per remote store, so after a clean push the remote "
+                            f"still lacks {sorted(lack[r])} - the objects of the entries whose cache is {losers} "
+                            f"(prefixes {case['prefixes']})")
+            skip_r = shaped if manifest else set()
+            judge_push("round1", new1, before, after1, pushed1, failed1, skip_r, not manifest)
+            judge_push("round2", new2, after1, after2, pushed2, failed2, skip_r, not manifest)
+            if failed2 and not manifest:
                 viols.append(Viol("push-retry-failed", f"fault-free retry reported {failed2} failed objects"))
             for r in range(nr):
-                lack = des_r.get(r, set()) - set(after2[r])
-                if lack:
+                if r in skip_r:
+                    continue
+                if lack[r]:
                     viols.append(Viol("push-incomplete",
-                                      f"after the clean retry remote {r} lacks {sorted(lack)} of the entries the "
+                                      f"after the clean retry remote {r} lacks {sorted(lack[r])} of the entries the "
                                       f"mapping designates to it (prefixes {case['prefixes']})"))
                 for oid in sorted(set(after2[r]) & set(m.bytes)):
                     if after2[r][oid] != m.bytes[oid]:
@@ -572,13 +620,13 @@ def run_flow(case, ctx):  # noqa: C901, PLR0912, PLR0915
                                           f"remote {r}: object {oid} differs from the reference bytes"))
                         break
             o.update(roots=roots, remotes=rem, conf=conf, tidx=tidx, before=before, moving=moving, inj=inj,
-                     froots=froots, after2=after2, new2=new2, pushed=pushed1 + pushed2)
+                     froots=froots, after2=after2, new2=new2, pushed=pushed1 + pushed2, manifest=bool(manifest))
             return o
 
         # ---- push: round 1 with the drawn fault subset, round 2 clean -----------------------------
         P = push_phase("", case["fail"], case["fail_roots"], "push")
         if viols:
-            return Result(viols, False, ["push-violation"], {})
+            return Result(viols + known_v, False, ["push-violation"], {"known_shape_hits": len(known_v)})
         # ---- enumeration: every single object that has to move fails once (fresh remotes each time) ---
         enumerated = efaults = 0
         if case.get("enum"):
@@ -586,7 +634,7 @@ def run_flow(case, ctx):  # noqa: C901, PLR0912, PLR0915
                 efaults += len(push_phase(f"e{n}", {oid}, None, f"push-e{n}")["inj"].faulted)
                 enumerated += 1
                 if viols:
-                    return Result(viols, False, ["push-violation", "enumerated-single-fault"], {})
+                    return Result(viols + known_v, False, ["push-violation", "enumerated-single-fault"], {"known_shape_hits": len(known_v)})
         rroots, remotes, rconf, tidx = P["roots"], P["remotes"], P["conf"], P["tidx"]
         before, inj, froots, after2, new2 = P["before"], P["inj"], P["froots"], P["after2"], P["new2"]
 
@@ -594,93 +642,148 @@ def run_flow(case, ctx):  # noqa: C901, PLR0912, PLR0915
             return ([ops.make_odb(k, croots[i]) for i, k in enumerate(case["cache_kinds"])],
                     [ops.make_odb(k, rroots[i], **rconf) for i, k in enumerate(case["remote_kinds"])])
 
-        # ---- empty the caches, fetch (optionally a faulty round first), clean fetch ---------------
-        for root in croots:
-            _empty_store(root)
-        if case["fresh_fetch"]:
-            caches, remotes = mk_stores()
-        fidx = make_tidx(caches, remotes) if (case["fresh_fetch"] or case["recollect"]) else tidx
-        avail = {r: req_r.get(r, set()) & set(after2[r]) for r in cacheof}
-
-        def judge_fetch(label, snap0, snap1, fetched, failed, clean):
-            arrived_total, still_total, need_total = 0, 0, 0
-            for c in range(nc):
-                src = set().union(*[avail[r] for r in feeders.get(c, [])]) if feeders.get(c) else set()
-                arrived = set(snap1[c]) - set(snap0[c])
-                if arrived - src:
-                    viols.append(Viol("fetch-unexpected-object",
-                                      f"fetch {label}: cache {c} received {sorted(arrived - src)}, not objects of "
-                                      f"entries under a prefix that resolves to a remote paired with it"))
-                if set(snap0[c]) - set(snap1[c]):
-                    viols.append(Viol("fetch-removed-object", f"fetch {label}: cache {c} lost objects"))
-                arrived_total += len(arrived)
-                need_total += len(src - set(snap0[c]))
-            for r, c in cacheof.items():
-                still_total += len(avail[r] - set(snap1[c]))
-            if clean and fetched + failed != need_total:
-                viols.append(Viol(f"fetch-count-sum:{label}",
-                                  f"fetch {label}: fetched {fetched} + failed {failed} != {need_total} objects that "
-                                  f"had to move"))
-            elif fetched != arrived_total or failed != still_total:
-                viols.append(Viol(f"fetch-count-split:{label}",
-                                  f"fetch {label}: reported fetched={fetched} failed={failed}, but {arrived_total} "
-                                  f"objects arrived and {still_total} requested-and-available objects are absent"))
-
-        fdata = do_collect(fidx, "fetch")
-        c0 = _snap(croots, "caches emptied", viols)
+        # Behind a manifest known finding the search goes on with the entries that no shaped remote requests
+        # (the others cannot be fetched: their objects never reached the remote).
+        active = [k for k in m.tracked if not (P["manifest"] and k in involved)]
+        fetched1 = fetched2 = 0
         finj = None
-        if case["ffail"]:
-            want_all = sorted(set().union(*avail.values())) if avail else []
-            ffail = {want_all[i % len(want_all)] for i in case["ffail"]} if want_all else set()
-            finj = Injector(croots, fail=ffail)
-            with finj:
-                fetched1, ffailed1 = fetch(fdata, jobs=case["jobs"])
-            c1 = _snap(croots, "after fetch round 1", viols)
-            judge_fetch("round1", c0, c1, fetched1, ffailed1, clean=False)
-            if case["recollect"]:
-                fidx = make_tidx(caches, remotes)
-                fdata = do_collect(fidx, "fetch")
-        else:
-            c1 = c0
-        fetched2, ffailed2 = fetch(fdata, jobs=case["jobs"])
-        c2 = _snap(croots, "after clean fetch", viols)
-        judge_fetch("clean", c1, c2, fetched2, ffailed2, clean=True)
-        if ffailed2:
-            viols.append(Viol("fetch-retry-failed", f"fault-free fetch reported {ffailed2} failed objects"))
-        for c in range(nc):
-            lack = des_c.get(c, set()) - set(c2[c])
-            if lack:
-                viols.append(Viol("fetch-incomplete",
-                                  f"after the clean fetch cache {c} lacks {sorted(lack)} of the entries the mapping "
-                                  f"designates to it (prefixes {case['prefixes']})"))
-            for oid in sorted(set(c2[c]) & set(m.bytes)):
-                if c2[c][oid] != m.bytes[oid]:
-                    viols.append(Viol("fetch-wrong-bytes", f"cache {c}: object {oid} differs from the reference bytes"))
-                    break
-        if viols:
-            return Result(viols, False, ["fetch-violation"], {})
+        fetch_manifest = False
+        if active:
+            # ---- empty the caches, fetch (optionally a faulty round first), clean fetch -----------
+            for root in croots:
+                _empty_store(root)
+            if case["fresh_fetch"]:
+                caches, remotes = mk_stores()
+            reuse = not (case["fresh_fetch"] or case["recollect"]) and len(active) == len(m.tracked)
+            fidx = tidx if reuse else make_tidx(caches, remotes, active)
+            a_des_r, a_des_c, a_pp = sets_for(active)
+            # objects each prefix can bring into its cache: requested under it and present in its remote
+            src_c = {}
+            for c, r, objs in a_pp:
+                src_c.setdefault(c, set()).update(objs & set(after2[r]))
+            a_req = {}
+            for _c, r, objs in a_pp:
+                a_req.setdefault(r, set()).update(objs)
+            shaped_live = {r for r in shaped if a_req.get(r)}
+            avail = {r: a_req.get(r, set()) & set(after2[r]) for r in cacheof}
 
-        # ---- checkout from the fetched caches ---------------------------------------------------
-        cidx = make_tidx(caches, remotes) if case["fresh_checkout"] else fidx
-        out = os.path.join(d, "out")
-        os.makedirs(out)
-        for k in m.tracked:
-            # a tracked key below an untracked grouping directory: the parent exists in any real workspace
-            os.makedirs(os.path.join(out, *k[:-1]), exist_ok=True)
-        diff = compare(None, cidx)
-        apply(diff, out, fs, storage="cache")
-        got = _walk_files(out)
-        want = m.expected_checkout()
-        if got != want:
-            miss = sorted(set(want) - set(got))
-            extra = sorted(set(got) - set(want))
-            bad = sorted(k for k in set(got) & set(want) if got[k] != want[k])
-            viols.append(Viol("checkout-mismatch",
-                              f"checkout from the fetched caches: missing {miss}, unexpected {extra}, wrong bytes {bad}"))
+            def fetch_symptom(snap0, snap1, final):
+                """Known defect on the fetch side: the objects of a shaped remote all land in one of its caches."""
+                if not shaped_live:
+                    return None
+                for c in sorted(shaped_c):
+                    extra = set(snap1[c]) - set(snap0[c]) - src_c.get(c, set())
+                    lack = (a_des_c.get(c, set()) - set(snap1[c])) if final else set()
+                    from_shaped = set().union(*[a_req[r] for r in shaped_live if c in caches_r[r]]) \
+                        if any(c in caches_r[r] for r in shaped_live) else set()
+                    if (extra and extra <= from_shaped) or (lack and lack <= from_shaped):
+                        return (f"caches {sorted(shaped_c)} are paired with one remote store "
+                                f"{sorted(shaped_live)}; collection carries one cache per remote store, so fetch "
+                                f"put {sorted(extra)} into cache {c} and left cache {c} without {sorted(lack)} "
+                                f"(prefixes {case['prefixes']})")
+                return None
+
+            def judge_fetch(label, snap0, snap1, fetched, failed, clean):
+                nonlocal fetch_manifest
+                sym = fetch_symptom(snap0, snap1, clean)
+                if sym:
+                    fetch_manifest = True
+                    known_shape(sym)
+                skip_c = shaped_c if fetch_manifest else set()
+                arrived_total, still_total, need_total = 0, 0, 0
+                for c in range(nc):
+                    src = src_c.get(c, set())
+                    arrived = set(snap1[c]) - set(snap0[c])
+                    arrived_total += len(arrived)
+                    need_total += len(src - set(snap0[c]))
+                    if c in skip_c:
+                        continue
+                    if arrived - src:
+                        viols.append(Viol("fetch-unexpected-object",
+                                          f"fetch {label}: cache {c} received {sorted(arrived - src)}, not objects of "
+                                          f"entries under a prefix that resolves to it and to a remote holding them"))
+                    if set(snap0[c]) - set(snap1[c]):
+                        viols.append(Viol("fetch-removed-object", f"fetch {label}: cache {c} lost objects"))
+                for r, c in cacheof.items():
+                    still_total += len(avail[r] - set(snap1[c]))
+                if shaped_live:
+                    return  # a group with two caches: the totals cannot be attributed (clean-round sets are judged)
+                if clean and fetched + failed != need_total:
+                    viols.append(Viol(f"fetch-count-sum:{label}",
+                                      f"fetch {label}: fetched {fetched} + failed {failed} != {need_total} objects "
+                                      f"that had to move"))
+                elif fetched != arrived_total or failed != still_total:
+                    viols.append(Viol(f"fetch-count-split:{label}",
+                                      f"fetch {label}: reported fetched={fetched} failed={failed}, but "
+                                      f"{arrived_total} objects arrived and {still_total} requested-and-available "
+                                      f"objects are absent"))
+
+            fdata = do_collect(fidx, "fetch")
+            c0 = _snap(croots, "caches emptied", viols)
+            if case["ffail"]:
+                want_all = sorted(set().union(*src_c.values())) if src_c else []
+                ffail = {want_all[i % len(want_all)] for i in case["ffail"]} if want_all else set()
+                finj = Injector(croots, fail=ffail)
+                with finj:
+                    fetched1, ffailed1 = fetch(fdata, jobs=case["jobs"])
+                c1 = _snap(croots, "after fetch round 1", viols)
+                judge_fetch("round1", c0, c1, fetched1, ffailed1, clean=False)
+                if case["recollect"]:
+                    fidx = make_tidx(caches, remotes, active)
+                    fdata = do_collect(fidx, "fetch")
+            else:
+                c1 = c0
+            fetched2, ffailed2 = fetch(fdata, jobs=case["jobs"])
+            c2 = _snap(croots, "after clean fetch", viols)
+            judge_fetch("clean", c1, c2, fetched2, ffailed2, clean=True)
+            if ffailed2 and not fetch_manifest:
+                viols.append(Viol("fetch-retry-failed", f"fault-free fetch reported {ffailed2} failed objects"))
+            for c in range(nc):
+                if fetch_manifest and c in shaped_c:
+                    continue
+                lack = a_des_c.get(c, set()) - set(c2[c])
+                if lack:
+                    viols.append(Viol("fetch-incomplete",
+                                      f"after the clean fetch cache {c} lacks {sorted(lack)} of the entries the "
+                                      f"mapping designates to it (prefixes {case['prefixes']})"))
+                for oid in sorted(set(c2[c]) & set(m.bytes)):
+                    if c2[c][oid] != m.bytes[oid]:
+                        viols.append(Viol("fetch-wrong-bytes",
+                                          f"cache {c}: object {oid} differs from the reference bytes"))
+                        break
+            if viols:
+                return Result(viols + known_v, False, ["fetch-violation"], {"known_shape_hits": len(known_v)})
+
+            # ---- checkout from the fetched caches -------------------------------------------------
+            co_keys = [k for k in active if not (fetch_manifest and k in involved)]
+            if co_keys:
+                same = len(co_keys) == len(active)
+                cidx = fidx if (same and not case["fresh_checkout"]) else make_tidx(caches, remotes, co_keys)
+                out = os.path.join(d, "out")
+                os.makedirs(out)
+                for k in co_keys:
+                    # a tracked key below an untracked grouping directory: the parent exists in any real workspace
+                    os.makedirs(os.path.join(out, *k[:-1]), exist_ok=True)
+                diff = compare(None, cidx)
+                apply(diff, out, fs, storage="cache")
+                got = _walk_files(out)
+                want = {}
+                for k in co_keys:
+                    want.update(m.entries[k]["files"])
+                if got != want:
+                    miss = sorted(set(want) - set(got))
+                    extra = sorted(set(got) - set(want))
+                    bad = sorted(k for k in set(got) & set(want) if got[k] != want[k])
+                    viols.append(Viol("checkout-mismatch",
+                                      f"checkout from the fetched caches: missing {miss}, unexpected {extra}, "
+                                      f"wrong bytes {bad}"))
 
         # ---- classification ---------------------------------------------------------------------
         cl = ["flow", f"prefixes={min(len(case['prefixes']), 4)}", f"wiring={case['wiring']}",
               "exact" if exact else "nested-remote-override"]
+        if shaped:
+            cl.append("shape:one-remote-two-caches")
+            cl.append("shape-defect-manifest" if known_v else "shape-defect-latent")
         live_r = [r for r in range(nr) if des_r.get(r)]
         live_c = [c for c in range(nc) if des_c.get(c)]
         if len(live_r) >= 2:
@@ -748,11 +851,12 @@ def run_flow(case, ctx):  # noqa: C901, PLR0912, PLR0915
         if sum(len(v) for v in new2.values()) == 0:
             cl.append("round2-nothing-to-move")
         nontrivial = bool(hit) or (len(live_r) >= 2 and has_dir)
-        return Result(viols, nontrivial, cl, {
+        return Result(viols + known_v, nontrivial, cl, {
+            "known_shape_hits": len(known_v),
             "faults_injected": len(inj.faulted) + (len(finj.faulted) if finj else 0) + efaults,
             "objects_pushed": P["pushed"],
             "single_faults_enumerated": enumerated,
-            "objects_fetched": fetched2 + (fetched1 if case["ffail"] else 0),
+            "objects_fetched": fetched2 + fetched1,
             "flows": 1,
         })
 
